@@ -44,6 +44,7 @@ type Link struct {
 	LatPm      int
 	LatMax     time.Duration
 	BytesPerMs int // 0 = unlimited
+	Serial     bool // with BytesPerMs: writes queue up behind each other (a line of that capacity) instead of each being delayed by its own size only
 	Atomic     func(data []byte) bool // chunks for which this holds are never cut (e.g. a trigger line: detectors work per read)
 	SealAtomic bool                   // atomic chunks are also never merged with their neighbours
 
@@ -166,6 +167,10 @@ func (l *Link) Write(p []byte) (int, error) {
 		l.Delayed++
 	}
 	if l.BytesPerMs > 0 {
+		if l.Serial && l.lastAt > at {
+			// a line of that capacity: this write's bytes go out after the ones already queued
+			at = l.lastAt
+		}
 		at += time.Duration(len(data)/l.BytesPerMs) * time.Millisecond
 	}
 	if l.StallUntil > at {
